@@ -132,10 +132,13 @@ def run(chk: Check):
     uctx = chk.func(REL, "Phrase.unwrap")
     uo = func_outcomes(chk, uctx)
     pk_ = f"{REL}::Phrase.__init__"
-    t = uo[0][3] if uo else S.unk("none")
+    urets = [o for o in uo if o[0] == "return"]
+    t = urets[0][3] if urets else S.unk("none")
     want = S.call("ext:hashlib.pbkdf2_hmac", [("sub", S.C(p2k), ("p", pk_, 2)), S.call(".encode", [("p", uctx.qual, 1)]), ("p", pk_, 5), ("p", pk_, 4),
                                                ("sub", S.C(cks), ("p", pk_, 3))])
-    chk.decide(t == want, "K-PROV", "pbkdf2-argument-roles", uctx.func,
+    # (every return, should there be several - a guard in front of a memo, say - is the same derivation)
+    unwrap_ok = bool(urets) and all(o[3] == want for o in urets)
+    chk.decide(unwrap_ok, "K-PROV", "pbkdf2-argument-roles", uctx.func,
                "pbkdf2_hmac(hash <- PASS2KEY_MAP[pass2key], password <- passphrase, salt, rounds, dklen <- CIPHER_KEY_SIZES[cipher])",
                expected=S.show(want)[:300], found=S.show(t)[:300])
     # Phrase construction from the crypto dict
@@ -246,7 +249,18 @@ def run(chk: Check):
     kdf = S.subst(want, {("p", uctx.qual, 1): ("p", plq, 1)}) if hasattr(S, "subst") else _subst(want, ("p", uctx.qual, 1), ("p", plq, 1))
     want_pl = S.call(f"{REL}::_decrypt_hmac", [kdf, R.self_attr(pkey, "data"), R.self_attr(pkey, "mac")])
     plo = [o for o in func_outcomes(chk, plctx) if o[0] == "return"]
-    chk.decide(bool(plo) and all(o[3] == want_pl for o in plo), "K-PROV", "pair-unlock-derives-key-from-passphrase", plctx.func,
+    # (when Phrase.unwrap has several returns it stays a call: then its own rule above says what it returns)
+    via_unwrap = S.call(f"{REL}::_decrypt_hmac", [S.call(f"{REL}::Phrase.unwrap", [R.self_attr(pkey, "wrapped_key"), ("p", plq, 1)]),
+                                                   R.self_attr(pkey, "data"), R.self_attr(pkey, "mac")])
+
+    def derives(v):
+        if v == want_pl:
+            return True
+        if unwrap_ok and v[0] == "call" and v[1] == f"{REL}::_decrypt_hmac" and len(v[2]) == 3 and v[2][1:] == via_unwrap[2][1:]:
+            u = v[2][0]
+            return u[0] == "call" and u[1] == f"{REL}::Phrase.unwrap" and len(u[2]) == 2 and u[2][1] == ("p", plq, 1)
+        return False
+    chk.decide(bool(plo) and all(derives(o[3]) for o in plo), "K-PROV", "pair-unlock-derives-key-from-passphrase", plctx.func,
                "every return of Pair.unlock_with_phrase is _decrypt_hmac(KDF(this call's passphrase), pair data, pair MAC name): "
                "nothing remembered from an earlier call can be returned",
                expected=S.show(want_pl)[:300], found=str([S.show(o[3])[:300] for o in plo]))
